@@ -172,10 +172,16 @@ class Hist:
         r = rng.random()
         if r < 0.3 and self.by_kind["ByteInterval"]:
             bi = rng.choice(self.by_kind["ByteInterval"])
-            if rng.random() < 0.6:
+            q = rng.random()
+            if q < 0.55:
                 self.emit([14, bi, opt(rng.choice(ADDRS))])
-            else:
+            elif q < 0.85:
                 self.emit([15, bi, rng.choice(SIZES + [32])])
+            else:
+                # initialized_size: beyond the current size the interval grows (an implicit size assignment)
+                o = self.w.obj[bi]
+                v = rng.choice([0, 1, o.size, o.size + 1, o.size + 8, 40])
+                self.emit([29, bi, v], model_it=[15, bi, max(o.size, v)])
         elif r < 0.65 and (self.by_kind["CodeBlock"] or self.by_kind["DataBlock"]):
             b = rng.choice(self.by_kind["CodeBlock"] + self.by_kind["DataBlock"])
             if rng.random() < 0.5:
